@@ -63,7 +63,7 @@ def run(ctx, out):
         jobs.append({"scn": scn, "script": script, "seed": ctx.seed, "test_mode": True, "qmax": 100, "fault": fault})
     beh = rc.behaviours(ctx, out, 100 if ctx.quick else 1000, 110, cfg="RaceDriver.c09.sim.cfg", seed_off=9, with_fault=True)
     for i, (scn, script, fault) in enumerate(beh):
-        jobs.append({"scn": scn, "script": script, "seed": ctx.seed + i, "test_mode": True, "qmax": 100, "fault": fault, "req_variant": ["conn_error", "api_error", "runner"][i % 3]})
+        jobs.append({"scn": scn, "script": script, "seed": ctx.seed + i, "test_mode": True, "qmax": 100, "fault": fault, "req_variant": ["conn_error", "api_error", "runner", "unsuccessful"][i % 4]})
     scns = []
     seen = set()
     for scn, _s, _f in beh:
@@ -77,7 +77,7 @@ def run(ctx, out):
     for i, scn in enumerate(scns):
         for kind in KINDS:
             for k in range(reps):
-                jobs.append({"scn": scn, "script": [], "seed": ctx.seed + 3000 + 97 * i + 7 * k + KINDS.index(kind), "test_mode": True, "qmax": 100, "fault": kind, "req_variant": ["conn_error", "api_error", "runner"][(i + k) % 3], "fault_delay": rnd.randint(4, 70)})
+                jobs.append({"scn": scn, "script": [], "seed": ctx.seed + 3000 + 97 * i + 7 * k + KINDS.index(kind), "test_mode": True, "qmax": 100, "fault": kind, "req_variant": ["conn_error", "api_error", "runner", "unsuccessful"][(i + k) % 4], "fault_delay": rnd.randint(4, 70)})
     stats, index = rc.run_races(ctx, out, jobs, CLAUSES, "c09")
     out.extra["races_run"] = len(jobs)
     out.extra["faults_fired"] = stats.get("faults_fired", 0)
